@@ -49,6 +49,10 @@ def cases(tier, seed):
                         "cycles": 1 + (k % 3), "target": ["stream", "file"][(k // 3) % 2], "seed": [seed, "obj", k]})
             k += 1
     out.append({"id": "inventory", "kind": "inventory"})
+    # explicit None for every constructor argument whose default is something else, class by class with parent
+    # classes first, all in ONE interpreter (state kept on classes must not leak from a parent to its subclasses)
+    for rep in range(2 if tier == "quick" else 6):
+        out.append({"id": "noneprobe-%d" % rep, "kind": "none_probe", "order": ["parents_first", "children_first", "shuffled"][rep % 3], "seed": [seed, "np", rep]})
     return out
 
 
@@ -322,9 +326,69 @@ def _cycle(obj, target, td, k):
     return serialize.load(io.BytesIO(buf.getvalue())), text
 
 
+def _run_none_probe(case):
+    import yaml
+    from holopy.core.io import serialize
+    from holopy.scattering.scatterer import Sphere, Spheres, Spheroid, Cylinder, Ellipsoid, Capsule
+    from holopy.core.prior import Uniform, Gaussian, BoundedGaussian
+    from holopy.scattering.theory import Mie, Multisphere, MieLens
+    from holopy.scattering.theory.mielens import AberratedMieLens
+    from holopy.inference import NmpfitStrategy, LeastSquaresScipyStrategy
+    from holopy.inference.cmaes import CmaStrategy
+    from holopy.inference.emcee import EmceeStrategy, TemperedStrategy
+    from holopy.inference.model import LimitOverlaps
+    from holopy.inference.result import UncertainValue
+    rng = rng_for(*case["seed"])
+    table = [(EmceeStrategy, {}), (TemperedStrategy, {}), (CmaStrategy, {}), (NmpfitStrategy, {}), (LeastSquaresScipyStrategy, {}), (Mie, {}), (Multisphere, {}),
+             (MieLens, {}), (AberratedMieLens, {}), (Uniform, {"lower_bound": 0.5, "upper_bound": 1.5}), (Gaussian, {"mu": 1.0, "sd": 0.2}),
+             (BoundedGaussian, {"mu": 1.0, "sd": 0.2}), (Sphere, {"n": 1.5, "center": [1.0, 2.0, 3.0]}), (Spheroid, {"n": 1.5, "r": [0.3, 0.5], "center": [1.0, 2.0, 3.0]}),
+             (Cylinder, {"n": 1.5, "h": 1.0, "d": 0.5, "center": [1.0, 2.0, 3.0]}), (LimitOverlaps, {}), (UncertainValue, {"guess": 1.0, "plus": 0.1})]
+    table.sort(key=lambda t: len(t[0].__mro__))
+    if case["order"] == "children_first":
+        table.reverse()
+    elif case["order"] == "shuffled":
+        table = [table[i] for i in rng.permutation(len(table))]
+    flags, witness = {}, []
+    probes = 0
+    for cls, base in table:
+        sig = inspect.signature(cls.__init__)
+        # a plain instance goes through the serializer first (ordinary use before the unusual one)
+        try:
+            yaml.dump(cls(**base), default_flow_style=True)
+        except Exception:
+            pass
+        for name, par in list(sig.parameters.items())[1:]:
+            if par.default is inspect.Parameter.empty or par.default is None or name in base:
+                continue
+            try:
+                obj = cls(**dict(base, **{name: None}))
+            except Exception:
+                continue      # the class itself rejects None here
+            if not hasattr(obj, name) or getattr(obj, name) is not None:
+                continue      # argument is consumed / replaced by the constructor
+            probes += 1
+            try:
+                t1 = yaml.dump(obj, default_flow_style=True)
+                o2 = yaml.load(t1, Loader=yaml.FullLoader)
+                t2 = yaml.dump(o2, default_flow_style=True)
+            except Exception as e:
+                flags["none_probe_roundtrip_raises"] = False
+                witness.append("%s(%s=None): %r" % (cls.__name__, name, e))
+                continue
+            if getattr(o2, name, "<missing>") is not None:
+                flags["args_none"] = False
+                witness.append("%s(%s=None) reloads with %s=%r" % (cls.__name__, name, name, getattr(o2, name, "<missing>")))
+            if t1 != t2:
+                flags["text_first_cycle"] = False
+                witness.append("%s(%s=None): text changes on re-save" % (cls.__name__, name))
+    return {"resid": {}, "flags": flags, "witness": witness[:6], "nargs": probes, "text": ""}
+
+
 def run_case(case):
     if case["kind"] == "inventory":
         return _run_inventory(case)
+    if case["kind"] == "none_probe":
+        return _run_none_probe(case)
     from holopy.inference.model import Model
     from vf.monitors import digest
     rng = rng_for(*case["seed"])
